@@ -36,6 +36,15 @@ pub trait ExRead {
     fn by_ref(&mut self) -> (r: &mut Self) where Self: Sized
         ensures *r == *old(self), *final(r) == *final(self);
 
+    // read_to_end: everything the source will still deliver is appended to buf (std documentation)
+    fn read_to_end(&mut self, buf: &mut Vec<u8>) -> (r: std::io::Result<usize>)
+        ensures
+            match r {
+                Ok(n) => final(buf)@ == old(buf)@ + old(self).stream() && n == old(self).stream().len()
+                    && final(self).stream().len() == 0 && (old(self).failed() ==> final(self).failed()),
+                Err(_) => final(self).failed(),
+            };
+
     fn bytes(self) -> (r: std::io::Bytes<Self>) where Self: Sized
         ensures bytes_inner(r) == self;
 }
